@@ -106,6 +106,22 @@ def strategy(tier):
                 final = {"src": [["", f"{tag}{ci}", e]], "dst": [["", f"{tag}{pj}", e]], "mag": draw(MAG),
                          "kind": draw(st.sampled_from(["in_unit", "add", "eq", "lt", "m_add", "m_sub", "m_add"]))}
                 steps.insert(draw(synth._int(i + 1, pos)), ["query", dict(final)])
+        flat = [(f["dim"][0].upper(), e) for f in spec["fams"] for e in f["edges"]]
+        how = draw(convgen.INT10)
+        if flat and how < 5:
+            # the history asks about exactly the pair of a declaration right before it is made (no
+            # route yet, as a rule) and again right after it, in one direction only -- for one
+            # declaration, or for every declaration of the world in turn
+            which = list(range(len(flat))) if how < 2 else [draw(synth._int(0, len(flat) - 1))]
+            for i in which:
+                tag, (ci, pj, _p, _f, *_r) = flat[i]
+                a, b = (f"{tag}{ci}", f"{tag}{pj}") if draw(st.booleans()) else (f"{tag}{pj}", f"{tag}{ci}")
+                e = draw(st.sampled_from([1, 1, 1, 2]))
+                final = {"src": [["", a, e]], "dst": [["", b, e]], "mag": draw(MAG), "kind": draw(st.sampled_from(["in_unit", "in_unit", "in_unit", "add", "m_add"]))}
+                at = steps.index(["decl", i])
+                if how < 2 or draw(st.booleans()):
+                    steps.insert(at + 1, ["query", dict(final)])
+                steps.insert(at, ["query", dict(final)])
         names = synth.unit_names(spec)
 
         def other_unit(u):
@@ -239,6 +255,7 @@ def _run_world(spec, steps, final, interleaved, out=None):
     edges = []  # (unit name, unit name) for declarations between two single plain units
     touched_before_decl = False
     seen_final = False
+    notfound = set()
     for st_ in steps:
         kind = st_[0]
         if kind in ("decl", "redecl"):
@@ -263,10 +280,17 @@ def _run_world(spec, steps, final, interleaved, out=None):
                 if not same:
                     out.fail("C08:repeat", f"the same query gave {r1} and then {r2}: {q}")
                 _linked_clause(out, sw, q, r1, edges, "during")
+                key = repr((q.get("src"), q.get("dst"), q.get("kind")))
+                if r1[0] == "exc":
+                    notfound.add(key)
+                elif key in notfound and "not-found-then-found" not in out.classes:
+                    out.classes.append("not-found-then-found")
             if q.get("src") == final.get("src") and q.get("dst") == final.get("dst") or _shares_unit(q, final):
                 seen_final = True
     rf = _exec_query(sw, final) if synth.valid_query(sw, final) else None
     if out is not None and rf is not None:
+        if rf[0] != "exc" and repr((final.get("src"), final.get("dst"), final.get("kind"))) in notfound and "not-found-then-found" not in out.classes:
+            out.classes.append("not-found-then-found")
         _linked_clause(out, sw, final, rf, edges, "final")
     return rf, touched_before_decl, sw
 
@@ -365,5 +389,5 @@ def still_fails(case, bucket):
 
 
 def vacuity(col):
-    missing = [k for k in ("query-before-declaration", "redeclaration", "final:v", "final:exc:ConversionNotFound") if not col.classes.get(k)]
+    missing = [k for k in ("query-before-declaration", "redeclaration", "final:v", "not-found-then-found") if not col.classes.get(k)]
     return missing or None
